@@ -194,6 +194,7 @@ def generate(run_seed, tier):
     rs = substream(run_seed, "sched")
     rf_ = substream(run_seed, "faults")
     fmt = rw.choice(["beast", "beast", "raw", "skysense"])
+    mix = None
     bulk = rw.random() < 0.12   # backlog regime: long stream, reads up to libzmq's 8192-byte batch
     if bulk:
         n = rw.choice([300, 700, 1500])
@@ -201,8 +202,40 @@ def generate(run_seed, tier):
             n = rw.choice([6000, 20000])   # soak: count-dependent behaviour (every Nth frame, counters, growth)
         p_hot = rw.choice([0.0, 0.05])
         frames = gen_forward_frames(rw, fmt, n, p_hot)
-        mix = rw.choice(["any", "commb_heavy", "adsb_heavy"])
-        if mix != "any":
+        mix = rw.choice(["any", "any", "commb_heavy", "adsb_heavy", "quiet_heavy"])
+        if mix == "quiet_heavy":
+            # a long stretch in which (almost) nothing is forwarded: Mode-A/C and
+            # status records (Beast) or short frames, with the odd long frame
+            # pending in the network source the whole time
+            n = max(n, rw.choice([1500, 3000]))
+            sub = rw.choice(["modeac", "short"]) if fmt == "beast" else "short"
+            if sub == "short":
+                n = rw.choice([2600, 4000])
+            frames = []
+            for i in range(n):
+                r = rw.random()
+                if i == 0 or i == n - 1 or r < 0.004:
+                    # one ADS-B message first (it stays pending), Comm-B now and
+                    # then, one more ADS-B at the very end
+                    body = wire.gen_body(rw, True, [], 0.0)
+                    df = 17 if (i == 0 or i == n - 1) else rw.choice([20, 21])
+                    body = bytes([(df << 3) | (body[0] & 7)]) + body[1:]
+                elif fmt == "beast" and sub == "modeac" and r < 0.9:
+                    frames.append({"k": rw.choice(["1", "4"]), "ts": "%012X" % rw.getrandbits(48), "sig": rw.randrange(256),
+                                   "body": "%04X" % rw.getrandbits(16)})
+                    if frames[-1]["k"] == "4":
+                        frames[-1]["body"] = "%028X" % rw.getrandbits(112)
+                    continue
+                else:
+                    body = wire.gen_body(rw, False, [], 0.0)
+                hx = body.hex().upper()
+                if fmt == "beast":
+                    frames.append({"k": "3" if len(body) == 14 else "2", "ts": "%012X" % rw.getrandbits(48), "sig": rw.randrange(256), "body": hx})
+                elif fmt == "raw":
+                    frames.append({"txt": hx if rw.random() < 0.5 else hx.lower(), "sep": rw.choice(["", "\n"])})
+                else:
+                    frames.append({"body": hx if len(body) == 14 else hx + "00" * 7, "ts": "%012X" % rw.getrandbits(48), "rs": "%06X" % rw.getrandbits(24)})
+        elif mix != "any":
             # re-target the long frames' DF: long quiet stretches of one kind
             for f in frames:
                 key = "body" if "body" in f else "txt"
@@ -233,8 +266,11 @@ def generate(run_seed, tier):
     if bulk:
         pos = 0
         size = rc.choice([1000, 4096, 8191, 8192, 8192, 20000])
+        if mix == "quiet_heavy":
+            size = rc.choice([12, 20, 24, 40, 100, 1000])   # thousands of reads, each completing a frame or two
+        alt = [1, 7, 100, 4096, 8192] if mix != "quiet_heavy" else [1, 7, 16, 30]
         while pos < L:
-            pos += size if rc.random() < 0.8 else rc.choice([1, 7, 100, 4096, 8192])
+            pos += size if rc.random() < 0.8 else rc.choice(alt)
             if 0 < pos < L:
                 cuts.add(pos)
     elif style < 0.25:
@@ -297,7 +333,7 @@ def execute(sc, keep_log=False):
     if not dl or dl[-1][1] != len(data):
         dl = dl + [[(dl[-1][0] if dl else 0) + 1000, len(data)]]
     npieces = len(dl)
-    cap = 4000 + 30 * npieces + 14 * len(sc["frames"])
+    cap = 4000 + 40 * npieces + 20 * len(sc["frames"])
     k = Kernel(tape=sc.get("tape"), step_cap=cap, t_end_us=None, cpu_us=sc.get("cpu_us", 0), keep_log=keep_log)
     oracle = Oracle(st)
     oracle.on_violation = lambda: k._begin_stop("violation")
@@ -399,6 +435,8 @@ def execute(sc, keep_log=False):
         stats.c["probe.bulk_stream_runs"] += 1
         if any(b - a >= 8192 for a, b in zip([0] + [d[1] for d in dl], [d[1] for d in dl])):
             stats.c["probe.read_of_8192_bytes_or_more"] += 1
+    if npieces >= 2000:
+        stats.c["probe.connection_with_over_2000_reads"] += 1
     if any(len(b["commb_msg"]) > 256 for b in oracle.batches):
         stats.c["probe.batch_with_over_256_commb"] += 1
     nontrivial = bool(k.counters) or k.switches > 0 or npieces > 1
